@@ -444,9 +444,15 @@ def check_c02(exe, tier, seed, verdict):
     twins, nlong = check_long_lines(exe, verdict, "C02")
     files = gen_random_files(seed, nfiles, 14 if tier == "quick" else 40) + twins
     acc = validate_prefix_traces(exe, files, verdict, "C02") + nlong
+    # what a parsed file means is what the getters answer: random files read and then asked through every getter form (plain and
+    # bracketed section names, names that are prefixes of each other, typed getters, listings, the extended getter), validated
+    # against the root specification
+    from . import p_econf
+    nmix = 200 if tier == "quick" else 4000
+    acc += p_econf.run_mixed(exe, random.Random(seed + 21), nmix, verdict, "C02", nops=(10, 40))
     cov = {"states": r.distinct, "transitions": r.generated, "traces_validated_against_impl": n + acc,
            "evaluations": n + sum(len(f["lines"]) for f in files), "distinct_nontrivial": nn,
-           "rule": "TLC enumerates all conventional files of <= %d lines over the line pool of MC_Parser.tla x 7 delimiter sets x 3 comment sets (%d files; every %d-th replayed in this tier); non-trivial = >= 2 entries and a quoted value / trailing comment / continuation / blanks around the delimiter / repeated key. Plus %d random conventional files (full printable alphabet) read prefix by prefix and validated line by line by Trace_Parser (6 of them twins of files with one field - entry value, continuation line, comment line - of 8190 / 8192 / 9000 / 70000 bytes, which must be observed like the twin with the filler stretched)." % (maxl, total, sample, len(files)),
+           "rule": "TLC enumerates all conventional files of <= %d lines over the line pool of MC_Parser.tla x 7 delimiter sets x 3 comment sets (%d files; every %d-th replayed in this tier); non-trivial = >= 2 entries and a quoted value / trailing comment / continuation / blanks around the delimiter / repeated key. Plus %d random conventional files (full printable alphabet) read prefix by prefix and validated line by line by Trace_Parser (6 of them twins of files with one field - entry value, continuation line, comment line - of 8190 / 8192 / 9000 / 70000 bytes, which must be observed like the twin with the filler stretched). Plus %d API histories that read random files and ask through every getter form (plain / bracketed section names, names that are prefixes of each other, typed getters, listings, extended getter), validated by Trace_Econf." % (maxl, total, sample, len(files), nmix),
            "samples": samples, "exhaustive": sample == 1,
            "model_universe_files": total, "replayed_files": n, "random_prefix_files_accepted": acc,
            "trusted_base": ["TLC 1.8.0", "gcc ASan/UBSan", "drv.c (public API only)"]}
